@@ -175,6 +175,15 @@ def gen_context(ctx, idx, tool):
         pool = ["*.log", "build/", "build", "target", "/x.txt", "src/sub/secret.txt", "**/tmp1", "tmp?", "docs/*.txt", "*.o", "# a comment", "", "!keep.log", "vendor/", "/docs/build", "**/deep", "data.*",
                 "!src/lib.rs", "*.rs", "src/*.rs", "sub/", "src/**/*.bin", "tmp1", "**/name", "src/*/README", " secret.txt ", "! y.txt", "*/*.txt", "a+b", "**/*.log", "!src/sub/b.log", "tmp*"]
         lines = [rng.choice(pool) for _ in range(rng.randint(1, 7))]
+        if rng.random() < 0.5:
+            # the order of the lines matters: an exception followed by a later pattern that matches the same entry again
+            sc = rng.choice([["!keep.log", "*.log"], ["*.log", "!keep.log", "keep.???"], ["!src/lib.rs", "src/*.rs"], ["!y.txt", "*.txt"], ["*.txt", "!y.txt", "y.*"], ["!README", "READM?"]])
+            k_ = rng.randrange(len(lines) + 1)
+            lines = lines[:k_] + sc + lines[k_:]
+            for nm_ in ("keep.log", "y.txt", "README", "src/lib.rs"):        # the entries the scenarios speak about exist at the context root
+                os.makedirs(os.path.dirname(os.path.join(top, nm_)), exist_ok=True)
+                if not os.path.lexists(os.path.join(top, nm_)):
+                    open(os.path.join(top, nm_), "w").close()
     else:
         os.mkdir(os.path.join(top, ".hg"))
         gpool = ["*.log", "build/", "build", "target", "src/sub/secret.txt", "**/tmp1", "tmp?", "docs/*.txt", "*.o", "# a comment", "", "vendor/", "docs/build", "**/deep", "data.*", "*.rs", "sub/", "src/**/*.bin",
@@ -394,6 +403,8 @@ def run(ctx):
     import subprocess as _sp
     import sys as _sys
     from .common import VERIF, COQ, BUILD
+    from .common import build_tool
+    build_tool("harness")          # the comparison below runs the harness binary directly: make sure it is built from the current tree
     idir = os.path.join(VERIF, "tools", "ignorediff")
     ienv = dict(os.environ, IGNORE_COQ=COQ, IGNORE_SCRATCH=os.path.join(ctx.scratch, "ignorediff"), FSHARNESS=os.path.join(BUILD, "harness", "release", "fsharness"), TZ="UTC")
     ij = os.path.join(ctx.scratch, "ignorediff.json")
